@@ -1710,6 +1710,7 @@ EXPECTED_SHAPE = {'channel.py:HTTPChannel.__init__': ['w:outbufs', 'w:sendbuf_le
                                     '}else{',
                                     '}',
                                     'w:error',
+                                    'const:None',
                                     'try{',
                                     '}except(KeyError){',
                                     'pass',
